@@ -17,12 +17,14 @@ import (
 	"fmt"
 	"os"
 	"path/filepath"
+	"reflect"
 	"sort"
 	"strconv"
 	"strings"
 	"sync"
 	"time"
 
+	coreboltvm "github.com/meshplus/bitxhub-core/boltvm"
 	"github.com/meshplus/bitxhub-core/governance"
 	servicemgr "github.com/meshplus/bitxhub-core/service-mgr"
 	"github.com/meshplus/bitxhub-core/validator"
@@ -228,9 +230,89 @@ func seedService(c *hx.Chain, chainID, serviceID string, ordered bool, status go
 // ---------------------------------------------------------------------------------------
 // transactions
 
+var managerAddrs = []constant.BoltContractAddress{
+	constant.AppchainMgrContractAddr, constant.ServiceMgrContractAddr, constant.RuleManagerContractAddr,
+	constant.NodeManagerContractAddr, constant.RoleContractAddr, constant.DappMgrContractAddr,
+}
+
+var responseType = reflect.TypeOf((*coreboltvm.Response)(nil))
+
+// queryCall picks, by reflection over the REGISTERED contract object, the ordinal-th (sorted by
+// name, modulo their number) exported method that returns a single *boltvm.Response, looks like a
+// query (Get*/Is*/Count*/Check*/Has*/All*/Appchains/Query*) and takes only string / integer / bool /
+// bytes / float parameters, and builds plain arguments for it.  New methods are picked up
+// automatically.
+func (r *replica) queryCall(contract, ordinal int) (*types.Address, string, []*pb.Arg) {
+	a := managerAddrs[((contract%len(managerAddrs))+len(managerAddrs))%len(managerAddrs)]
+	obj := r.c.Exec.GetBoltContracts()[a.Address().String()]
+	t := reflect.TypeOf(obj)
+	var names []string
+	for i := 0; i < t.NumMethod(); i++ {
+		m := t.Method(i)
+		n := m.Name
+		q := false
+		for _, p := range []string{"Get", "Is", "Count", "Check", "Has", "All", "Appchains", "Query"} {
+			if strings.HasPrefix(n, p) {
+				q = true
+			}
+		}
+		if !q || m.Type.NumOut() != 1 || m.Type.Out(0) != responseType {
+			continue
+		}
+		ok := true
+		for j := 1; j < m.Type.NumIn(); j++ {
+			switch m.Type.In(j).Kind() {
+			case reflect.String, reflect.Uint64, reflect.Int64, reflect.Int32, reflect.Bool, reflect.Float64:
+			case reflect.Slice:
+				if m.Type.In(j).Elem().Kind() != reflect.Uint8 {
+					ok = false
+				}
+			default:
+				ok = false
+			}
+		}
+		if ok {
+			names = append(names, n)
+		}
+	}
+	sort.Strings(names)
+	if len(names) == 0 {
+		return a.Address(), "NoSuchMethod", nil
+	}
+	name := names[((ordinal%len(names))+len(names))%len(names)]
+	m, _ := t.MethodByName(name)
+	var args []*pb.Arg
+	for j := 1; j < m.Type.NumIn(); j++ {
+		switch m.Type.In(j).Kind() {
+		case reflect.String:
+			v := "chain0"
+			if contract%len(managerAddrs) == 1 {
+				v = "chain0:svc0"
+			}
+			args = append(args, pb.String(v))
+		case reflect.Uint64:
+			args = append(args, pb.Uint64(1))
+		case reflect.Int64:
+			args = append(args, pb.Int64(1))
+		case reflect.Int32:
+			args = append(args, pb.Int32(1))
+		case reflect.Bool:
+			args = append(args, pb.Bool(true))
+		case reflect.Float64:
+			args = append(args, pb.Float64(1))
+		default:
+			args = append(args, pb.Bytes(nil))
+		}
+	}
+	return a.Address(), name, args
+}
+
 func ibtpOf(h *history, op []int64) *pb.IBTP {
 	sc, ss, dc, ds, idx, typ, timeout, gid := op[2], op[3], op[4], op[5], op[6], op[7], op[8], op[9]
 	ib := &pb.IBTP{From: fullSvc(sc, ss), To: fullSvc(dc, ds), Index: uint64(idx), TimeoutHeight: timeout}
+	if len(op) > 10 && op[10]&4 != 0 { // destination on another BitXHub: reaches checkBitXHubAvailability
+		ib.To = fmt.Sprintf("2000:%s:%s", chainName(dc), svcName(ds))
+	}
 	switch typ {
 	case 0:
 		ib.Type = pb.IBTP_INTERCHAIN
@@ -381,6 +463,10 @@ func (r *replica) buildTx(h *history, op []int64) (pb.Transaction, string) {
 			return hx.BvmTx(k, r.nextNonce(k), addr, "QueryById", pb.String("chain0:svc0"), pb.Bytes(nil)), ""
 		}
 		return hx.BvmTx(k, r.nextNonce(k), addr, "CountAll", pb.Bytes(nil)), ""
+	case 8: // [8, user, contract, ordinal]: the ordinal-th query-like exported *Response method of a manager contract
+		k := acctKey(op[1])
+		addr, method, args := r.queryCall(int(op[2]), int(op[3]))
+		return hx.BvmTx(k, r.nextNonce(k), addr, method, args...), ""
 	case 6: // [6, user, sc, ss, dc, ds, idx, typ, timeout, gid]: plain BVM HandleIBTPData(bytes), no proof
 		k := acctKey(op[1])
 		ib := ibtpOf(h, op)
